@@ -46,7 +46,10 @@ func init() {
 	badPairs[[2]string{"-", "-->"}] = true
 	badPairs[[2]string{"number", "%"}] = true
 	badPairs[[2]string{"ident", "() block"}] = true
-	badPairs[[2]string{"|", "|"}] = true
+	// `||` and `|=` are tokens of their own: `|` followed by `|`, `||` or `|=` would be read as `||` first
+	for _, b := range []string{"|", "||", "|="} {
+		badPairs[[2]string{"|", b}] = true
+	}
 	badPairs[[2]string{"/", "*"}] = true
 }
 
